@@ -175,7 +175,10 @@ def check(case):
             out.fail("overlapping-notes-not-fused", f"key {key}: {x[:2]} and {y[:2]} overlap, output {[n for n in notes1 if (n[0], n[1]) == key]}")
             break
     # signatures
+    # inputs laid over each other in merge order; on one tick the library's documented sort puts lower channels first and is
+    # stable otherwise (staggered families can bring signature events of different channels onto one tick)
     union = [e for ev, _ in contents for e in ev]
+    union = [e for _, e in sorted(enumerate(union), key=lambda ie: (ie[1][0], ie[1][2] if ie[1][2] is not None else -1, ie[0]))]
     for kind in (O.TS, O.KS):
         keep = O.in_force(union, kind)
         have = [(e[0], (e[5], e[6]) if kind == O.TS else e[7]) for e in ev1 if e[1] == kind]
